@@ -100,7 +100,6 @@ class DAGRunConcurrentManager(DAGRunManagerLike):
     _memorization_store: t.Dict[t.Any, t.Any] = field(default_factory=dict)
     _coro_tasks: t.Set[asyncio.Task] = field(default_factory=set)
     _additional_data: t.Dict[NodeId, t.Any] = field(default_factory=dict)
-    _started_oneof_children: t.Set[NodeId] = field(default_factory=set)
     _alias_run_method: str = 'run'
 
     def __post_init__(self) -> None:
@@ -268,12 +267,10 @@ class DAGRunConcurrentManager(DAGRunManagerLike):
             Args:
                 u -  Node
             """
-            return not self.dag.graph.nodes[u].get(NodeField.is_oneof_child) or u in self._started_oneof_children
-
-        if is_oneof:
-            # The graph is shared between runs, hence the fact that the OneOf child has been started
-            # is kept in the run manager
-            self._started_oneof_children.add(dest)
+            # A OneOf child belongs only to the subgraph that OneOf builds to run it (as its destination).
+            # Neither the other subgraphs nor the other OneOfs may launch it or see its errors.
+            # The graph is shared between runs, hence it cannot be used to keep the fact that a child has been started.
+            return not self.dag.graph.nodes[u].get(NodeField.is_oneof_child) or (is_oneof and u == dest)
 
         return get_connected_subgraph(
             dag=nx.subgraph_view(self.dag.graph, filter_edge=_filter, filter_node=_filter_node),
